@@ -1037,9 +1037,24 @@ def _forbidden(events, watched_top):
     return bad
 
 
+def _release(exc):
+    """keep the exception for classification but let go of everything its traceback holds alive (frames, and through them
+    the half-built file object of a refused call): what that object does when it is collected belongs to the call, so the
+    collection must happen BEFORE the file system is compared"""
+    import gc
+    exc._verif_in_file_class = _raised_in_file_class(exc)
+    exc.__traceback__ = None
+    exc.__context__ = None
+    exc.__cause__ = None
+    gc.collect()
+    return exc
+
+
 def _raised_in_file_class(exc):
     """is the innermost mdtraj frame of the traceback inside mdtraj/formats (the file class), not trajectory.py?"""
     import traceback
+    if hasattr(exc, "_verif_in_file_class"):
+        return exc._verif_in_file_class
     inner = None
     for fr in traceback.extract_tb(exc.__traceback__):
         fn = fr.filename.replace(os.sep, "/")
@@ -1213,7 +1228,7 @@ def _run_overwrite(case, ctx, d):
         try:
             call(os.path.join(d, "ctl"), fo_arg)
         except Exception as e:
-            control = e
+            control = _release(e)
         misplaced = control is None and entry in ("save", "saver") and not all(
             os.path.lexists(r) for r in _outputs(os.path.join(d, "ctl", name), ext, nf, entry))
         lock()
@@ -1225,7 +1240,7 @@ def _run_overwrite(case, ctx, d):
         try:
             call(base, fo_arg)
         except Exception as e:
-            raised = e
+            raised = _release(e)
         events = _disarm(idx)
         unlock()
         created = sorted(set(os.listdir(base)) - set(listing0))
@@ -1303,7 +1318,7 @@ def _run_overwrite(case, ctx, d):
     try:
         call(base, fo_arg)
     except Exception as e:
-        raised = e
+        raised = _release(e)
     events = _disarm(idx)
     unlock()
     how = sorted({e for e, p, _ in _forbidden(events, pre)})
@@ -1463,7 +1478,7 @@ def _run_badmode(case, ctx, d):
         f.close()
         del f
     except Exception as e:
-        raised = e
+        raised = _release(e)
     events = _disarm(idx)
     tag = f"{ext}:{entry}:mode={mode!r}:force_overwrite=False"
     changes = _diff(before)
@@ -1565,7 +1580,7 @@ def _run_seq(case, ctx, d):
         try:
             _produce(path, ext, tnew, entry, False)
         except Exception as e:
-            raised = e
+            raised = _release(e)
         events = _disarm(idx)
     finally:
         if handle is not None:
@@ -1902,7 +1917,7 @@ def _run_read(case, ctx, d):
     except BaseException as e:  # a reader that fails has still run on the file
         if isinstance(e, (KeyboardInterrupt, SystemExit)):
             raise
-        raised = e
+        raised = _release(e)
     events = _disarm(idx)
     dstat1 = os.stat(d)
     if form == "rodir":
